@@ -619,6 +619,11 @@ def run(ck):
     ])
     ck.floor("C03-DICTRESET", 5)
     check_dict_siblings(ck, prog)
+    # a valid stream behind a BCJ filter decodes to the specified bytes only if the filter wrapper's buffer bookkeeping is
+    # exact (rule shared with C15)
+    from . import C15
+    ck.rule("C03-BCJBUF", "simple_code: compaction of coder->buffer moves pos/size by the amount that memmove() discarded")
+    C15.check_compact(ck, prog, rule="C03-BCJBUF")
     # "all Check IDs": a valid file with a SHA-256 Check is accepted only if the decoder computes the standard hash
     from . import C14
     C14.check_sha(ck, prog)
